@@ -316,6 +316,9 @@ pub fn gen_prog(r: &mut Rng, cov: &Coverage, cfg: &GenCfg) -> Prog {
             }
             b.p.stmt_order = Some(o);
         }
+        if crate::analysis::short_circuit_hazard(&b.p) {
+            continue 'retry;
+        }
         match crate::analysis::analyze(&b.p) {
             Ok(_) => return b.p,
             Err(e) => panic!("generator produced an invalid program: {e}\n{:?}", b.p),
@@ -519,4 +522,85 @@ pub fn card_name(c: Card) -> &'static str {
 /// sanity helper for tests / debugging
 pub fn check_valid(p: &Prog) -> Result<(), String> {
     infer(p).map(|_| ())
+}
+
+/// Per-operator cell programs: for every (operator, persistence) template a minimal program
+/// `sources -> [adapters] -> op -> sinks`, once as generated (pull side where possible) and, for
+/// unary operators, once behind `tee()` (push side). Guarantees that every cell is exercised in
+/// isolation on every run (frequency floor of the coverage table).
+pub fn gen_cell_progs(r: &mut Rng) -> Vec<(Prog, String)> {
+    let mut out = vec![];
+    for op in templates(r) {
+        let label = op.label();
+        let mut built = None;
+        for _ in 0..4 {
+            let mut b = Builder {
+                p: Prog { nodes: vec![], sources: vec![], stmt_order: None },
+                open: vec![],
+                ops: 0,
+            };
+            for (s, ty) in [Ty::I, Ty::p(), Ty::I, Ty::p()].into_iter().enumerate() {
+                b.p.sources.push(ty.clone());
+                b.push(Op::SrcStream { src: s, ty }, vec![], &[]).unwrap();
+            }
+            if !try_apply(r, &mut b, op.clone()) {
+                continue;
+            }
+            let op_idx = b.p.nodes.iter().rposition(|n| n.op == op).unwrap();
+            // close: outputs of the operator get sinks, unused sources are dropped by dce
+            let open = std::mem::take(&mut b.open);
+            let mut sink = 0;
+            for (e, info) in open {
+                let is_src = matches!(b.p.nodes[e.node].op, Op::SrcStream { .. });
+                let o = if is_src {
+                    Op::Null
+                } else {
+                    sink += 1;
+                    Op::ForEach { sink: sink - 1 }
+                };
+                b.push(o, vec![e], &[info]).unwrap();
+            }
+            if sink == 0 {
+                continue;
+            }
+            let mut dummy = Script { steps: vec![] };
+            let prog = crate::reduce::dce(b.p, &mut dummy);
+            if crate::analysis::analyze(&prog).is_err() || crate::analysis::short_circuit_hazard(&prog) {
+                continue;
+            }
+            let op_idx = prog.nodes.iter().rposition(|n| n.op == op).unwrap_or(op_idx.min(prog.nodes.len() - 1));
+            built = Some((prog, op_idx));
+            break;
+        }
+        let Some((prog, op_idx)) = built else { continue };
+        if prog.nodes[op_idx].ins.len() == 1 {
+            if let Some(pp) = crate::rewrite::force_push(&prog, op_idx) {
+                out.push((pp, format!("{label}@after-tee")));
+            }
+        }
+        out.push((prog, format!("{label}@direct")));
+    }
+    out
+}
+
+/// Dense histories for the cell programs: 5-8 ticks over a very small domain so that items
+/// repeat within and across ticks.
+pub fn gen_history_dense(r: &mut Rng, sources: &[Ty]) -> Vec<Vec<Vec<Val>>> {
+    let ticks = 5 + r.below(4);
+    let mut h = vec![];
+    for _ in 0..ticks {
+        let mut per = vec![];
+        for ty in sources {
+            let n = if r.chance(1, 5) { 0 } else { r.below(5) };
+            let items = (0..n)
+                .map(|_| match ty {
+                    Ty::I => Val::I(r.range(0, 3)),
+                    _ => Val::p(r.range(0, 2), r.range(0, 2)),
+                })
+                .collect();
+            per.push(items);
+        }
+        h.push(per);
+    }
+    h
 }
